@@ -34,8 +34,8 @@ theorem hsem_noemit : ∀ (fuel : Nat) (op : Host) (nh na : Nat) (s s' : HSt), e
     | ifc cb c a b body =>
       simp only [emits] at he
       simp [hsem, he] at h; exact h.symm
-    | loop st sp d body => simp only [emits] at he; simp [hsem, he] at h; exact h.symm
-    | loopBody st sp d body => simp only [emits] at he; simp [hsem, he] at h; exact h.symm
+    | loop rg st sp d body => simp only [emits] at he; simp [hsem, he] at h; exact h.symm
+    | loopBody rg st sp d body => simp only [emits] at he; simp [hsem, he] at h; exact h.symm
     | foreach arr wi body => simp only [emits] at he; simp [hsem, he] at h; exact h.symm
     | loopUntil n body ef ev cl => simp only [emits] at he; simp [hsem, he] at h; exact h.symm
     | tryUntil n body =>
@@ -191,14 +191,14 @@ theorem hsem_keeps : ∀ (fuel : Nat) (op : Host) (nh na : Nat) (s s' : HSt),
             · split at h
               · exact ih body nh na s s' h
               · cases h; exact Keeps.refl _ _
-    | loop st sp d body =>
+    | loop rg st sp d body =>
       simp only [hsem] at h
       split at h
       · cases h; exact Keeps.refl _ _
       · refine (Keeps.setH nh s nh st).trans (clearOpt_keeps (Nat.le_refl _) ?_ h)
         intro s1 h1
         exact iterLoop_keeps (fun a b hab => (ih body _ _ a b hab).mono (by omega)) _ _ _ h1
-    | loopBody st sp d body =>
+    | loopBody rg st sp d body =>
       simp only [hsem] at h
       split at h
       · cases h; exact Keeps.refl _ _
